@@ -202,3 +202,342 @@ if __name__ == "__main__":
     for s in range(int(sys.argv[1]), int(sys.argv[2])):
         print(f"# seed {s}")
         print(gen_scalar(s))
+
+
+# ------------------------------------------------------------------ bundles (C02)
+class BundleGen:
+    def __init__(self, rng: random.Random):
+        self.rng = rng
+        self.lines: list[str] = []
+        self.types = [s for s in ITEMS + FLUIDS + VIRT[:12]]
+        rng.shuffle(self.types)
+        self.scalars: list[tuple[str, str]] = []     # (name, type)
+        self.bundles: list[tuple[str, list[str]]] = []  # (name, member types)
+        self.n = 0
+
+    def fresh(self, p):
+        self.n += 1
+        return f"{p}{self.n}"
+
+    def new_type(self):
+        return self.types.pop()
+
+    def add_scalar(self):
+        nm = self.fresh("s")
+        t = self.new_type()
+        self.lines.append(f'Signal {nm} = ("{t}", {const(self.rng, small=self.rng.random() < 0.6)});')
+        self.scalars.append((nm, t))
+        return nm, t
+
+    def add_bundle_literal(self):
+        rng = self.rng
+        nm = self.fresh("b")
+        elems, tys = [], []
+        for _ in range(rng.randint(1, 4)):
+            r = rng.random()
+            if r < 0.45 and len(self.types) > 2:
+                t = self.new_type()
+                elems.append(f'("{t}", {const(rng, small=rng.random() < 0.5)})')
+                tys.append(t)
+            elif r < 0.8 and len(self.types) > 2:
+                s, t = self.add_scalar()
+                elems.append(s)
+                tys.append(t)
+            else:
+                cands = [(b, ts) for b, ts in self.bundles if not set(ts) & set(tys)]
+                if cands:
+                    b, ts = rng.choice(cands)
+                    elems.append(b)
+                    tys += ts
+        if not elems:
+            t = self.new_type()
+            elems.append(f'("{t}", {const(rng, small=True)})')
+            tys.append(t)
+        self.lines.append(f"Bundle {nm} = {{ {', '.join(elems)} }};")
+        self.bundles.append((nm, tys))
+
+    def scalar_operand(self):
+        rng = self.rng
+        if self.scalars and rng.random() < 0.5:
+            return rng.choice(self.scalars)[0]
+        return lit(const(rng, small=rng.random() < 0.7))
+
+    def add_op(self):
+        rng = self.rng
+        b, tys = rng.choice(self.bundles)
+        r = rng.random()
+        nm = self.fresh("b")
+        if r < 0.3:
+            op = rng.choice(ARITH)
+            k = str(rng.randint(0, 31)) if op in ("<<", ">>") else (str(rng.randint(0, 4)) if op == "**" else self.scalar_operand())
+            self.lines.append(f"Bundle {nm} = ({b} {op} {k});")
+            self.bundles.append((nm, tys))
+        elif r < 0.45:
+            self.lines.append(f"Bundle {nm} = (({b} {rng.choice(CMP)} {self.scalar_operand()}) : {b});")
+            self.bundles.append((nm, tys))
+        elif r < 0.55:
+            self.lines.append(f"Bundle {nm} = (({b} {rng.choice(CMP)} {self.scalar_operand()}) : {lit(const(rng, small=True))});")
+            self.bundles.append((nm, tys))
+        elif r < 0.65 and self.scalars:
+            s = rng.choice(self.scalars)[0]
+            self.lines.append(f"Bundle {nm} = (({s} {rng.choice(CMP)} {lit(const(rng, small=True))}) : {b});")
+            self.bundles.append((nm, tys))
+        elif r < 0.8:
+            sn = self.fresh("q")
+            fn = rng.choice(["any", "all"])
+            if rng.random() < 0.5 or not self.scalars:
+                self.lines.append(f"Signal {sn} = ({fn}({b}) {rng.choice(CMP)} {lit(const(rng, small=True))});")
+            else:
+                s = rng.choice(self.scalars)[0]
+                self.lines.append(f"Signal {sn} = (({fn}({b}) {rng.choice(CMP)} {lit(const(rng, small=True))}) : {s});")
+        else:
+            sn = self.fresh("q")
+            t = rng.choice(tys)
+            if rng.random() < 0.5:
+                self.lines.append(f'Signal {sn} = {b}["{t}"];')
+            else:
+                self.lines.append(f'Signal {sn} = ({b}["{t}"] {rng.choice(["+", "*", "-"])} {lit(const(rng, small=True))});')
+
+    def program(self):
+        rng = self.rng
+        for _ in range(rng.randint(0, 2)):
+            self.add_scalar()
+        for _ in range(rng.randint(1, 2)):
+            self.add_bundle_literal()
+        for _ in range(rng.randint(1, 4)):
+            self.add_op()
+        return "\n".join(self.lines) + "\n"
+
+
+def gen_bundle(seed: int) -> str:
+    return BundleGen(random.Random(seed)).program()
+
+
+# ------------------------------------------------------------------ memories (C03, C04, C05)
+def _inputs(rng, k, types=None):
+    lines, names = [], []
+    pool = types or [t for t in VIRT if t not in ("signal-W",)]
+    ts = rng.sample(pool, k)
+    for i, t in enumerate(ts):
+        nm = f"i{i + 1}"
+        lines.append(f'Signal {nm} = ("{t}", {const(rng, small=True)});')
+        names.append((nm, t))
+    return lines, names
+
+
+def _stateless(rng, names, depth=1):
+    """small stateless expression over the inputs"""
+    a = rng.choice(names)[0]
+    if depth <= 0 or rng.random() < 0.4:
+        return a
+    op = rng.choice(["+", "-", "*", "/", "%", "AND", "OR", "XOR"])
+    b = rng.choice(names)[0] if rng.random() < 0.5 else lit(const(rng, small=True))
+    return f"({a} {op} {b})"
+
+
+def _condition(rng, names):
+    a = rng.choice(names)[0]
+    b = rng.choice(names)[0] if rng.random() < 0.3 else lit(rng.randint(-3, 6))
+    return f"({a} {rng.choice(CMP)} {b})"
+
+
+def gen_gated(seed: int) -> str:
+    rng = random.Random(seed)
+    lines, names = _inputs(rng, rng.randint(2, 4))
+    cells = rng.randint(1, 2)
+    mts = rng.sample(ITEMS + FLUIDS, cells)
+    for c in range(cells):
+        t = mts[c]
+        m = f"m{c + 1}"
+        lines.append(f'Memory {m}: "{t}";')
+        data = f"({_stateless(rng, names, 1)} | \"{t}\")"
+        r = rng.random()
+        if r < 0.6:
+            en = _condition(rng, names)
+        elif r < 0.8:
+            en = rng.choice(names)[0]
+        else:
+            en = f"({_condition(rng, names)} && {_condition(rng, names)})"
+        lines.append(f"{m}.write({data}, when={en});")
+        for k in range(rng.randint(1, 3)):
+            rn = f"r{c + 1}_{k + 1}"
+            if rng.random() < 0.5:
+                lines.append(f"Signal {rn} = {m}.read();")
+            else:
+                lines.append(f"Signal {rn} = ({m}.read() {rng.choice(['+', '*', '-', '>'])} {lit(const(rng, small=True))});")
+    return "\n".join(lines) + "\n"
+
+
+def gen_iterate(seed: int) -> str:
+    rng = random.Random(seed)
+    lines, names = _inputs(rng, rng.randint(0, 2))
+    t = rng.choice(VIRT)
+    lines.append(f'Memory c: "{t}";')
+    steps = rng.randint(1, 4)
+    cur = "c.read()"
+    for k in range(steps):
+        op = rng.choice(["+", "-", "*", "%", "XOR", "AND", "OR", "/"])
+        if op in ("%", "/"):
+            rhs = lit(rng.choice([2, 3, 5, 7, 10, 17, 100, 1000]))
+        elif names and rng.random() < 0.3:
+            rhs = rng.choice(names)[0]
+        else:
+            rhs = lit(const(rng, small=True))
+        if rng.random() < 0.5 or k == steps - 1:
+            cur = f"({cur} {op} {rhs})"
+        else:
+            nm = f"t{k + 1}"
+            lines.append(f"Signal {nm} = ({cur} {op} {rhs});")
+            cur = nm
+    if rng.random() < 0.3:
+        cur = f"({cur} + 1)"
+    lines.append(f"c.write({cur});")
+    lines.append("Signal q = c.read();")
+    return "\n".join(lines) + "\n"
+
+
+def gen_latch(seed: int) -> str:
+    rng = random.Random(seed)
+    lines, names = _inputs(rng, rng.randint(1, 3))
+    t = rng.choice(VIRT)
+    lines.append(f'Memory l: "{t}";')
+    form = rng.random()
+    x = names[0][0]
+    if form < 0.4:      # comparisons on one shared input (hysteresis)
+        lo, hi = sorted(rng.sample(range(-5, 12), 2))
+        if rng.random() < 0.3:
+            lo, hi = hi, lo   # overlapping thresholds
+        s, r = f"{x} < {lo}", f"{x} >= {hi}"
+    elif form < 0.7 and len(names) > 1:   # comparisons on different inputs
+        s, r = f"{names[0][0]} {rng.choice(CMP)} {rng.randint(-3, 5)}", f"{names[1][0]} {rng.choice(CMP)} {rng.randint(-3, 5)}"
+    else:               # signals declared as comparisons
+        lines.append(f"Signal sset = {_condition(rng, names)};")
+        lines.append(f"Signal rreset = {_condition(rng, names)};")
+        s, r = "sset", "rreset"
+    v = rng.choice(["1", "1", lit(const(rng, small=True)), "100"])
+    if rng.random() < 0.5:
+        lines.append(f"l.write({v}, set={s}, reset={r});")
+    else:
+        lines.append(f"l.write({v}, reset={r}, set={s});")
+    lines.append("Signal o = l.read();")
+    return "\n".join(lines) + "\n"
+
+
+# ------------------------------------------------------------------ entities (C06)
+CONTROLLED = ["small-lamp", "inserter", "transport-belt", "pump", "power-switch", "train-stop", "fast-inserter"]
+SOURCES = ["steel-chest", "iron-chest", "wooden-chest", "storage-tank"]
+
+
+def gen_entities(seed: int) -> str:
+    rng = random.Random(seed)
+    lines, names = _inputs(rng, rng.randint(1, 3))
+    ne = rng.randint(1, 4)
+    chests = []
+    x = 0
+    for c in range(rng.randint(0, 2)):
+        nm = f"ch{c + 1}"
+        lines.append(f'Entity {nm} = place("{rng.choice(SOURCES[:3])}", {x}, 10);')
+        x += 3
+        chests.append(nm)
+        lines.append(f"Bundle items{c + 1} = {nm}.output;")
+    for e in range(ne):
+        nm = f"e{e + 1}"
+        proto = rng.choice(CONTROLLED[:4] if rng.random() < 0.8 else CONTROLLED)
+        lines.append(f'Entity {nm} = place("{proto}", {x}, 0);')
+        x += 3
+        r = rng.random()
+        if r < 0.35:
+            cond = _condition(rng, names)
+        elif r < 0.5 and chests:
+            k = rng.randint(1, len(chests))
+            cond = f"{rng.choice(['any', 'all'])}(items{k}) {rng.choice(CMP)} {rng.randint(0, 200)}"
+        elif r < 0.65 and chests:
+            k = rng.randint(1, len(chests))
+            cond = f'(items{k}["iron-plate"] {rng.choice(CMP)} {rng.randint(0, 200)})'
+        elif r < 0.8:
+            cond = _stateless(rng, names, 1)
+        else:
+            cond = f"({_condition(rng, names)} && {_condition(rng, names)})"
+        lines.append(f"{nm}.enable = {cond};")
+    if chests and rng.random() < 0.5:
+        lines.append(f'Signal total = (items1["iron-plate"] + items1["copper-plate"]);')
+    return "\n".join(lines) + "\n"
+
+
+# ------------------------------------------------------------------ functions (C15) and loops (C16)
+def gen_functions(seed: int) -> str:
+    rng = random.Random(seed)
+    lines, names = _inputs(rng, rng.randint(1, 3))
+    nf = rng.randint(1, 3)
+    funcs = []
+    for f in range(nf):
+        fn = f"f{f + 1}"
+        params = []
+        for p in range(rng.randint(1, 3)):
+            params.append((rng.choice(["Signal", "Signal", "int"]), f"p{p + 1}"))
+        body = []
+        sigs = [p for t, p in params if t == "Signal"]
+        ints = [p for t, p in params if t == "int"]
+        if not sigs:
+            params.append(("Signal", "ps"))
+            sigs.append("ps")
+        local = rng.choice(["t", "acc", names[0][0]])   # may shadow a caller name
+        a = rng.choice(sigs)
+        b = rng.choice(sigs + ints + [lit(const(rng, small=True))])
+        body.append(f"    Signal {local} = ({a} {rng.choice(['+', '-', '*', 'AND', 'XOR'])} {b});")
+        ret = f"({local} {rng.choice(['+', '*', '-'])} {rng.choice(sigs + ints + ['2'])})"
+        if funcs and rng.random() < 0.4:   # nested call
+            g, gp = rng.choice(funcs)
+            args = ", ".join((local if t == "Signal" else str(rng.randint(0, 5))) for t, _ in gp)
+            ret = f"({g}({args}) + {local})"
+        body.append(f"    return {ret};")
+        lines.append(f"func {fn}({', '.join(t + ' ' + p for t, p in params)}) {{")
+        lines += body
+        lines.append("}")
+        funcs.append((fn, params))
+    for k in range(rng.randint(1, 3)):
+        fn, params = rng.choice(funcs)
+        args = []
+        for t, _ in params:
+            if t == "int":
+                args.append(str(rng.randint(-3, 9)))
+            else:
+                r = rng.random()
+                args.append(rng.choice(names)[0] if r < 0.6 else (f"({rng.choice(names)[0]} + 1)" if r < 0.8 else str(rng.randint(0, 9))))
+        lines.append(f"Signal y{k + 1} = {fn}({', '.join(args)});")
+    return "\n".join(lines) + "\n"
+
+
+def gen_loops(seed: int) -> str:
+    rng = random.Random(seed)
+    lines, names = _inputs(rng, rng.randint(1, 2))
+    x = names[0][0]
+    form = rng.random()
+    a, b = rng.randint(-6, 6), rng.randint(-6, 6)
+    s = rng.choice([None, None, 1, 2, 3, -1, -2, -3])
+    if form < 0.25:
+        vals = [rng.randint(-5, 9) for _ in range(rng.randint(0, 4))]
+        head = f"for i in [{', '.join(map(str, vals))}]"
+    elif form < 0.45:
+        lines.append(f"int lo = {a};")
+        lines.append(f"int hi = {b};")
+        head = "for i in lo..hi" + (f" step {s}" if s else "")
+    else:
+        head = f"for i in {a}..{b}" + (f" step {s}" if s else "")
+    lines.append(head + " {")
+    body_kind = rng.random()
+    if body_kind < 0.6:
+        lines.append(f'    Entity lamp = place("small-lamp", i, {rng.randint(0, 3)});')
+        lines.append(f"    lamp.enable = {x} {rng.choice(CMP)} i;")
+    elif body_kind < 0.8:
+        lines.append(f'    Entity lamp = place("small-lamp", i, 2);')
+        lines.append(f"    Signal t = ({x} + i) * 2;")
+        lines.append("    lamp.enable = t > 4;")
+    else:
+        lines.append("    for j in 0..2 {")
+        lines.append(f'        Entity lamp = place("small-lamp", i, j);')
+        lines.append(f"        lamp.enable = ({x} + j) > i;")
+        lines.append("    }")
+    lines.append("}")
+    lines.append(f"Signal after = {x} + 1;")
+    return "\n".join(lines) + "\n"
